@@ -136,9 +136,11 @@ pub fn replay_with(args: &[String], roundtrip: &dyn Fn(&dyn Obj) -> Option<Resul
     let mut buf: Vec<String> = vec![];
     for (si, sc) in scheds.iter().enumerate() {
         for (i, ea) in reg.iter().enumerate() {
+            if ea.variant == "beyond-E" { continue; }
             // partner: another entry (different class), rotating with the schedule index
             let j = (i + 1 + si * 7) % reg.len();
             let mut j = if j == i { (j + 1) % reg.len() } else { j };
+            while reg[j].variant == "beyond-E" || j == i { j = (j + 1) % reg.len(); }
             if si % 2 == 0 {
                 // sibling: the neighbouring entry of the same family and float type (near-miss parameters)
                 let sib = |k: usize| reg[k].family == ea.family && reg[k].ft == ea.ft && k != i;
